@@ -318,11 +318,11 @@ func genColumnCase(r *vh.Rng, idx int, kase int) colDef {
 	case 16, 17:
 		max := r.Pick(0, 1, 10, 255, 256, 300, 1000, 65535, r.Intn(65536))
 		cd.ty, cd.key = sym("varchar", int64(max), int64(r.Intn(2))), "varchar"
-		cd.gen = func(r *vh.Rng) vh.Val { return randBytesVal(r, r.Intn(min(max, 40)+1)) }
+		cd.gen = func(r *vh.Rng) vh.Val { return randBytesVal(r, edgeLen(r, max, r.Intn(min(max, 40)+1))) }
 	case 18:
 		max := r.Pick(0, 1, 10, 255, 256, 300, 1023, r.Intn(1024))
 		cd.ty, cd.key = sym("char", int64(max)), "char"
-		cd.gen = func(r *vh.Rng) vh.Val { return randBytesVal(r, r.Intn(min(max, 40)+1)) }
+		cd.gen = func(r *vh.Rng) vh.Val { return randBytesVal(r, edgeLen(r, max, r.Intn(min(max, 40)+1))) }
 	case 19, 20:
 		lb := 1 + r.Intn(4)
 		cd.ty, cd.key = sym("blob", int64(lb), int64(249+r.Intn(4))), "blob"
@@ -330,6 +330,11 @@ func genColumnCase(r *vh.Rng, idx int, kase int) colDef {
 			n := r.Intn(60)
 			if lb >= 2 && r.Chance(1, 20) {
 				n = 256 + r.Intn(600)
+			}
+			if lb == 1 {
+				n = edgeLen(r, 255, n)
+			} else {
+				n = edgeLen(r, 65535, n)
 			}
 			return randBytesVal(r, n)
 		}
@@ -389,6 +394,21 @@ func jsonCellVal(r *vh.Rng, lb int) vh.Val {
 		}
 	}
 	return vh.L(vh.A("json"), (&jd{k: "i16", i: int64(int16(r.U64()))}).sexp())
+}
+
+// edgeLen: one value in ten of a string column has a length at the edges of the one-byte length prefix - 250..256,
+// where a prefix byte looks like the marker of a length-encoded integer (0xfb..0xfe) or is the largest one - or the
+// column's maximum; otherwise n.  (Drawn from a side stream: the other draws of a history do not move.)
+func edgeLen(r *vh.Rng, max, n int) int {
+	q := r.Side()
+	if !q.Chance(1, 10) {
+		return n
+	}
+	l := q.Pick(250, 251, 252, 253, 254, 255, 256, max)
+	if l > max || l > 1100 {
+		return n
+	}
+	return l
 }
 
 func min(a, b int) int {
@@ -510,11 +530,22 @@ func genRows(r *vh.Rng, t tableDef, kind, nrows int, c Cfg) rowsDef {
 	}
 	full := r.Chance(1, 2)
 	pb, pa := genPresence(r, len(t.cols), full), genPresence(r, len(t.cols), full)
+	// an UPDATE may write a row back as it was (engines and clusters that log every touched row do): both images of
+	// such a row are byte-identical, and are still two separate values for the consumer
+	q := r.Side()
+	sameImages := kind == 1 && q.Chance(1, 4)
+	if sameImages {
+		pa = pb
+	}
 	for i := 0; i < nrows; i++ {
 		if kind != 0 {
 			rd.before = append(rd.before, genImage(r, t, pb, &rd))
 		}
 		if kind != 2 {
+			if sameImages && q.Chance(2, 3) {
+				rd.after = append(rd.after, append([]vh.Val{}, rd.before[len(rd.before)-1]...))
+				continue
+			}
 			rd.after = append(rd.after, genImage(r, t, pa, &rd))
 		}
 	}
